@@ -11,7 +11,7 @@
 
 static const char *PROP = "C01";
 static int thorough;
-enum { K_RC_RUNS = 13, K_RC_PROBES = 14, K_RC_CLEANFAIL = 15 };
+enum { K_RC_RUNS = 13, K_RC_PROBES = 14, K_RC_CLEANFAIL = 15, K_SWEEP = 27 };
 enum { K_CELLS, K_HSFAIL, K_DELIV_UP, K_DELIV_DOWN, K_REPEATS, K_DGRAMS, K_ANSWERS, K_PARSED, K_PENDING_MAX, K_DATAFRAGS, K_REDELIV, K_CACHEHITS, K_PROBES_OK, K_SANNOTES = 20 };
 
 /* ---------------------------------------------------------------- cells */
@@ -264,6 +264,32 @@ static void offer_workload(int wl, int64_t t0)
 		int tun = w->side == 0 ? ns_srv_tun : ns_cli_tun[w->side];
 		vw_tun_offer_at(tun, t0 + (int64_t)w->at_ms * 1000, p, n, i + 1);
 	}
+}
+
+/* C11: packets cut to sit on the fragment boundaries of the settings the handshake settled on: compressed length k * capacity - 1,
+ * + 0, + 1, + 2 for k = 1, 2, in each direction (capacity = bytes per downstream fragment / per upstream query as measured after
+ * the handshake).  Incompressible contents, so the compressed length is the frame length plus zlib's 11 bytes. */
+static int offer_boundary_sweep(int first_tag, int64_t t0)
+{
+	static unsigned char p[70000];
+	int tag = first_tag;
+	for (int dir = 0; dir < 2; dir++) {
+		int cap = dir == 0 ? down_frag_cap : up_chunk_cap;
+		if (cap < 8 || cap > 2000) continue;
+		for (int k = 1; k <= 2; k++) for (int r = -1; r <= 2; r++) {
+			int target = k * cap + r, found = 0;
+			for (int iplen = target - 30 < 20 ? 20 : target - 30; iplen <= target && !found; iplen++) {
+				int n = ns_mkpkt(p, iplen, dir == 0 ? WDST(A_CLA) : A_SRV, tag, 0);
+				if (ns_compressed_len(p, n) == target) {
+					WL_MUST[tag] = 1;
+					vw_tun_offer_at(dir == 0 ? ns_srv_tun : ns_cli_tun[1], t0 + (int64_t)(tag - first_tag) * 600000, p, n, tag);
+					found = 1;
+				}
+			}
+			if (found && tag < NS_MAXPK - 1) tag++;
+		}
+	}
+	return tag - first_tag;
 }
 
 /* ---------------------------------------------------------------- violations */
@@ -714,6 +740,7 @@ static void run_cell(int job)
 	vw_run_until(W.now + 50000);
 	int64_t t0 = W.now;
 	offer_workload(c->wl, t0);
+	if (!strcmp(PROP, "C11") && !c->two) xp_count(K_SWEEP, offer_boundary_sweep(WLS[c->wl].n + 1, t0 + 9000000));
 	XC.budget = BUDGET;
 	ns_choices_on = BUDGET > 0;
 	if (want_c16) ns_fate_mask = 0;          /* the only deviation is the re-delivery */
@@ -827,10 +854,10 @@ int main(int argc, char **argv)
 		xp_run_jobs(cnt, runner, a.workers);
 		XS->counters[16 + p] = XS->execs;
 	}
-	char extra[700];
-	snprintf(extra, sizeof extra, "\"cells\":%ld,\"handshake_failed_cells\":%ld,\"delivered_up\":%ld,\"delivered_down\":%ld,\"repeats\":%ld,\"datagrams\":%ld,\"answers\":%ld,\"strictly_parsed\":%ld,\"max_pending\":%ld,\"data_fragments\":%ld,\"sanitizer_notes\":%ld,\"recovery_runs\":%ld,\"recovery_probes_checked\":%ld,\"recovery_cells_not_judged\":%ld,\"phases\":%d",
+	char extra[800];
+	snprintf(extra, sizeof extra, "\"cells\":%ld,\"handshake_failed_cells\":%ld,\"delivered_up\":%ld,\"delivered_down\":%ld,\"repeats\":%ld,\"datagrams\":%ld,\"answers\":%ld,\"strictly_parsed\":%ld,\"max_pending\":%ld,\"data_fragments\":%ld,\"sanitizer_notes\":%ld,\"recovery_runs\":%ld,\"recovery_probes_checked\":%ld,\"recovery_cells_not_judged\":%ld,\"boundary_sweep_packets\":%ld,\"phases\":%d",
 		 XS->counters[K_CELLS], XS->counters[K_HSFAIL], XS->counters[K_DELIV_UP], XS->counters[K_DELIV_DOWN], XS->counters[K_REPEATS], XS->counters[K_DGRAMS], XS->counters[K_ANSWERS],
-		 XS->counters[K_PARSED], XS->counters[K_PENDING_MAX], XS->counters[K_DATAFRAGS], XS->counters[K_SANNOTES], XS->counters[K_RC_RUNS], XS->counters[K_RC_PROBES], XS->counters[K_RC_CLEANFAIL], nph);
+		 XS->counters[K_PARSED], XS->counters[K_PENDING_MAX], XS->counters[K_DATAFRAGS], XS->counters[K_SANNOTES], XS->counters[K_RC_RUNS], XS->counters[K_RC_PROBES], XS->counters[K_RC_CLEANFAIL], XS->counters[K_SWEEP], nph);
 	xp_print_stats(extra);
 	return 0;
 }
